@@ -72,16 +72,27 @@ pub proof fn lemma_euclid_rel(a: int, b: int, q: int, s0: int, s1: int, ka: int,
     requires a == s0 * nn + ka * mm, b == s1 * nn + kb * mm
     ensures a - q * b == (s0 - q * s1) * nn + (ka - q * kb) * mm
 {
-    assert(a - q * b == (s0 - q * s1) * nn + (ka - q * kb) * mm) by(nonlinear_arith)
-        requires a == s0 * nn + ka * mm, b == s1 * nn + kb * mm;
+    lemma_lin(q, s1, kb, nn, mm);
+    lemma_mul_is_distributive_sub_other_way(nn, s0, q * s1);
+    lemma_mul_is_distributive_sub_other_way(mm, ka, q * kb);
+}
+// x * (s*nn + k*mm) == (x*s)*nn + (x*k)*mm
+pub proof fn lemma_lin(x: int, s: int, k: int, nn: int, mm: int)
+    ensures x * (s * nn + k * mm) == (x * s) * nn + (x * k) * mm
+{
+    lemma_mul_is_distributive_add(x, s * nn, k * mm);
+    lemma_mul_is_associative(x, s, nn);
+    lemma_mul_is_associative(x, k, mm);
 }
 // one matrix step on the ghost state: x*u - y*v of two represented numbers
 pub proof fn lemma_matrix_rel(a: int, b: int, x: int, y: int, s0: int, s1: int, ka: int, kb: int, nn: int, mm: int)
     requires a == s0 * nn + ka * mm, b == s1 * nn + kb * mm
     ensures x * a - y * b == (x * s0 - y * s1) * nn + (x * ka - y * kb) * mm
 {
-    assert(x * a - y * b == (x * s0 - y * s1) * nn + (x * ka - y * kb) * mm) by(nonlinear_arith)
-        requires a == s0 * nn + ka * mm, b == s1 * nn + kb * mm;
+    lemma_lin(x, s0, ka, nn, mm);
+    lemma_lin(y, s1, kb, nn, mm);
+    lemma_mul_is_distributive_sub_other_way(nn, x * s0, y * s1);
+    lemma_mul_is_distributive_sub_other_way(mm, x * ka, y * kb);
 }
 // the invariant T1*a + T0*b == M under a matrix of determinant det (pattern true: det = 1, c = m0 a - m1 b, d = m3 b - m2 a)
 pub proof fn lemma_matrix_det(a: int, b: int, t0: int, t1: int, m0: int, m1: int, m2: int, m3: int, mm: int)
@@ -95,8 +106,16 @@ pub proof fn lemma_matrix_det(a: int, b: int, t0: int, t1: int, m0: int, m1: int
         requires p == m2 * t0 + m3 * t1, q == m0 * t0 + m1 * t1, det == m0 * m3 - m1 * m2;
     assert(q * m3 - p * m1 == t0 * det) by(nonlinear_arith)
         requires p == m2 * t0 + m3 * t1, q == m0 * t0 + m1 * t1, det == m0 * m3 - m1 * m2;
-    assert(p * c + q * d == a * (p * m0 - q * m2) + b * (q * m3 - p * m1)) by(nonlinear_arith)
-        requires c == m0 * a - m1 * b, d == m3 * b - m2 * a;
+    // p*c + q*d == a*(p*m0 - q*m2) + b*(q*m3 - p*m1), by distributivity only
+    lemma_mul_is_distributive_sub(p, m0 * a, m1 * b);
+    lemma_mul_is_associative(p, m0, a); lemma_mul_is_associative(p, m1, b);
+    lemma_mul_is_distributive_sub(q, m3 * b, m2 * a);
+    lemma_mul_is_associative(q, m3, b); lemma_mul_is_associative(q, m2, a);
+    assert(p * c + q * d == (p * m0) * a - (p * m1) * b + (q * m3) * b - (q * m2) * a);
+    lemma_mul_is_distributive_sub_other_way(a, p * m0, q * m2);
+    lemma_mul_is_distributive_sub_other_way(b, q * m3, p * m1);
+    lemma_mul_is_commutative(a, p * m0 - q * m2);
+    lemma_mul_is_commutative(b, q * m3 - p * m1);
     assert(a * (t1 * det) + b * (t0 * det) == det * (t1 * a + t0 * b)) by(nonlinear_arith);
 }
 
@@ -293,6 +312,171 @@ pub fn inv_mod<const BITS: usize, const LIMBS: usize>(
     } else {
         None
     }
+}
+//@ end
+
+// the Bezout relation of one row under a matrix step, exact over the integers
+pub proof fn lemma_bezout_matrix(a: int, b: int, x: int, y: int, sa: int, ta: int, sb: int, tb: int, aa: int, bb: int)
+    requires a == sa * aa + ta * bb, b == sb * aa + tb * bb
+    ensures x * a - y * b == (x * sa - y * sb) * aa + (x * ta - y * tb) * bb
+{
+    lemma_matrix_rel(a, b, x, y, sa, sb, ta, tb, aa, bb);
+}
+
+//@ extract src/algorithms/gcd/mod.rs fn gcd_extended consts=IDENTITY cprefix=LehmerMatrix
+pub fn gcd_extended<const BITS: usize, const LIMBS: usize>(
+    a: Uint<BITS, LIMBS>,
+    b: Uint<BITS, LIMBS>,
+) -> /*+*/(r:/*-*/ (
+    Uint<BITS, LIMBS>,
+    Uint<BITS, LIMBS>,
+    Uint<BITS, LIMBS>,
+    bool,
+)/*+*/)
+    requires a.wf(), b.wf(), BITS <= usize::MAX - 63
+    ensures r.0.wf(), r.1.wf(), r.2.wf(),
+        a.val() >= b.val() ==> r.0.val() == sgcd(a.val(), b.val()),
+        a.val() < b.val() ==> r.0.val() == sgcd(b.val(), a.val()),
+        r.3 ==> (a.val() * r.1.val() - b.val() * r.2.val()) % m2(BITS) == r.0.val(),
+        !r.3 ==> (b.val() * r.2.val() - a.val() * r.1.val()) % m2(BITS) == r.0.val(),/*-*/
+{ let mut a = a ; let mut b = b ;
+    /*+*/let ghost a_in = a.val() as int; let ghost b_in = b.val() as int;
+    let ghost W = m2(BITS);/*-*/
+    if BITS == 0 {
+        /*+*/proof { lemma2_to64(); a.lemma_wf_lt(); b.lemma_wf_lt(); assert(sgcd(0, 0) == 0); assert(0 * 0 - 0 * 0 == 0) by(nonlinear_arith); lemma_small_mod(0, 1); }/*-*/
+        return (Uint::ZERO(), Uint::ZERO(), Uint::ZERO(), false);
+    }
+    let swapped = a < b;
+    if swapped {
+        swap(&mut a, &mut b);
+    }
+    /*+*/let ghost AA = a.val() as int; let ghost BB = b.val() as int;/*-*/
+    let mut s0 = Uint::ONE();
+    let mut s1 = Uint::ZERO();
+    let mut t0 = Uint::ZERO();
+    let mut t1 = Uint::ONE();
+    let mut even = true;
+    /*+*/let ghost target = sgcd(a.val(), b.val());
+    // the true (unbounded, signed) cofactors; the stored ones are their residues modulo 2^BITS
+    let ghost mut S0: int = 1; let ghost mut S1: int = 0; let ghost mut T0: int = 0; let ghost mut T1: int = 1;
+    proof {
+        lemma_pow2_pos(BITS as nat); a.lemma_wf_lt();
+        lemma_pow2_strictly_increases(0, BITS as nat); lemma2_to64();
+        lemma_small_mod(0, W as nat); lemma_small_mod(1, W as nat);
+        assert(AA == 1 * AA + 0 * BB) by(nonlinear_arith);
+        assert(BB == 0 * AA + 1 * BB) by(nonlinear_arith);
+    }/*-*/
+    while b != Uint::ZERO()
+        /*+*/invariant
+            BITS > 0, BITS <= usize::MAX - 63, a.wf(), b.wf(), s0.wf(), s1.wf(), t0.wf(), t1.wf(),
+            W == m2(BITS), W > 1,
+            a.val() >= b.val(),
+            sgcd(a.val(), b.val()) == target,
+            a.val() as int == S0 * AA + T0 * BB,
+            b.val() as int == S1 * AA + T1 * BB,
+            s0.val() as int == S0 % W, s1.val() as int == S1 % W,
+            t0.val() as int == T0 % W, t1.val() as int == T1 % W,
+        decreases b.val()/*-*/
+    {
+        vassert (a >= b );
+        /*+*/let ghost av = a.val() as int; let ghost bv = b.val() as int;
+        let ghost s0v = s0.val() as int; let ghost s1v = s1.val() as int; let ghost t0v = t0.val() as int; let ghost t1v = t1.val() as int;
+        proof { a.lemma_wf_lt(); }/*-*/
+        let m = LehmerMatrix::from(a, b);
+        if m == LehmerMatrix::IDENTITY() {
+            let q = a / b;
+            /*+*/let ghost qv = q.val() as int;
+            proof {
+                lemma_fundamental_div_mod(av, bv);
+                lemma_mod_bound(av, bv);
+                assert(0 <= qv * bv <= av) by(nonlinear_arith) requires av == bv * qv + av % bv, av % bv >= 0, qv >= 0, bv > 0;
+                lemma_small_mod((qv * bv) as nat, W as nat);
+                lemma_small_mod((av - qv * bv) as nat, W as nat);
+                assert(sgcd(av as nat, bv as nat) == sgcd(bv as nat, (av % bv) as nat));
+            }/*-*/
+            a -= q * b;
+            swap(&mut a, &mut b);
+            s0 -= q * s1;
+            swap(&mut s0, &mut s1);
+            t0 -= q * t1;
+            swap(&mut t0, &mut t1);
+            even = !even;
+            /*+*/proof {
+                let r = av % bv;
+                assert(av - qv * bv == r) by(nonlinear_arith) requires av == bv * qv + r;
+                lemma_cof_euclid(s0v, s1v, S0, S1, qv, W);
+                lemma_cof_euclid(t0v, t1v, T0, T1, qv, W);
+                lemma_bezout_matrix(av, bv, 1, qv, S0, T0, S1, T1, AA, BB);
+                assert(1 * av - qv * bv == av - qv * bv) by(nonlinear_arith);
+                assert((1 * S0 - qv * S1) == S0 - qv * S1 && (1 * T0 - qv * T1) == T0 - qv * T1) by(nonlinear_arith);
+                let nS1 = S0 - qv * S1; let nT1 = T0 - qv * T1;
+                S0 = S1; S1 = nS1; T0 = T1; T1 = nT1;
+            }/*-*/
+        } else {
+            /*+*/proof {
+                let (c, d) = maps(m, av, bv);
+                lemma_small_mod(c as nat, W as nat);
+                lemma_small_mod(d as nat, W as nat);
+            }/*-*/
+            m.apply(&mut a, &mut b);
+            m.apply(&mut s0, &mut s1);
+            m.apply(&mut t0, &mut t1);
+            even ^= !m.4;
+            /*+*/proof {
+                let m0 = m.0 as int; let m1 = m.1 as int; let m2_ = m.2 as int; let m3 = m.3 as int;
+                if m.4 {
+                    lemma_cof_matrix(s0v, s1v, S0, S1, m0, m1, W);
+                    lemma_cof_matrix(s1v, s0v, S1, S0, m3, m2_, W);
+                    lemma_cof_matrix(t0v, t1v, T0, T1, m0, m1, W);
+                    lemma_cof_matrix(t1v, t0v, T1, T0, m3, m2_, W);
+                    lemma_bezout_matrix(av, bv, m0, m1, S0, T0, S1, T1, AA, BB);
+                    lemma_bezout_matrix(bv, av, m3, m2_, S1, T1, S0, T0, AA, BB);
+                    let nS0 = m0 * S0 - m1 * S1; let nS1 = m3 * S1 - m2_ * S0;
+                    let nT0 = m0 * T0 - m1 * T1; let nT1 = m3 * T1 - m2_ * T0;
+                    S0 = nS0; S1 = nS1; T0 = nT0; T1 = nT1;
+                } else {
+                    lemma_cof_matrix(s1v, s0v, S1, S0, m1, m0, W);
+                    lemma_cof_matrix(s0v, s1v, S0, S1, m2_, m3, W);
+                    lemma_cof_matrix(t1v, t0v, T1, T0, m1, m0, W);
+                    lemma_cof_matrix(t0v, t1v, T0, T1, m2_, m3, W);
+                    lemma_bezout_matrix(bv, av, m1, m0, S1, T1, S0, T0, AA, BB);
+                    lemma_bezout_matrix(av, bv, m2_, m3, S0, T0, S1, T1, AA, BB);
+                    let nS0 = m1 * S1 - m0 * S0; let nS1 = m2_ * S0 - m3 * S1;
+                    let nT0 = m1 * T1 - m0 * T0; let nT1 = m2_ * T0 - m3 * T1;
+                    S0 = nS0; S1 = nS1; T0 = nT0; T1 = nT1;
+                }
+            }/*-*/
+        }
+    }
+    /*+*/let ghost g = a.val() as int;
+    let ghost xs = s0.val() as int; let ghost yt = t0.val() as int;
+    proof {
+        assert(sgcd(a.val(), 0) == a.val());
+        a.lemma_wf_lt();
+        lemma_small_mod(g as nat, W as nat);
+        assert(0 * AA + 0 * BB == 0) by(nonlinear_arith);
+        assert(BB * 0 == 0) by(nonlinear_arith);
+        // g == S0*AA + T0*BB exactly
+        lemma_sub_mod_noop(0, T0, W);
+        lemma_sub_mod_noop(0, S0, W);
+        lemma_small_mod(0, W as nat);
+        // even:  (AA*xs - BB*((0 - yt) % W)) % W == (AA*S0 - BB*(-T0)) % W == g
+        lemma_cof_matrix(xs, (0 - yt) % W, S0, -T0, AA, BB, W);
+        assert(AA * S0 - BB * (-T0) == S0 * AA + T0 * BB) by(nonlinear_arith);
+        // odd:   (BB*yt - AA*((0 - xs) % W)) % W == (BB*T0 - AA*(-S0)) % W == g
+        lemma_cof_matrix(yt, (0 - xs) % W, T0, -S0, BB, AA, W);
+        assert(BB * T0 - AA * (-S0) == S0 * AA + T0 * BB) by(nonlinear_arith);
+    }/*-*/
+    if even {
+        t0 = Uint::ZERO() - t0;
+    } else {
+        s0 = Uint::ZERO() - s0;
+    }
+    if swapped {
+        swap(&mut s0, &mut t0);
+        even = !even;
+    }
+    (a, s0, t0, even)
 }
 //@ end
 
